@@ -103,23 +103,51 @@ func genScenario(r *hutil.Rng, stream string) Scenario {
 				live = append(live, c)
 			}
 		}
+		if len(live) > 0 && r.Chance(1, 8) {
+			// the pool retires a connection (idle limit / lifetime)
+			c := live[r.Intn(len(live))]
+			sc.Ops = append(sc.Ops, Op{K: "retire", Target: chainLast[c]})
+			dead[c] = true
+			live = nil
+			for c2 := range chainLast {
+				if !dead[c2] {
+					live = append(live, c2)
+				}
+			}
+		}
 		if len(live) > 0 && r.Chance(1, 3) {
 			c := live[r.Intn(len(live))]
 			op.Reuse, op.Target = true, chainLast[c]
 			chainOf[len(sc.Ops)] = c
 			chainLast[c] = len(sc.Ops)
+		} else if r.Chance(1, 4) {
+			// through db.ExecContext: database/sql may run it up to three times (retry ops)
+			op.Db = true
+			for j := 0; j < 3; j++ {
+				chainOf[len(sc.Ops)+j] = len(chainLast)
+			}
+			dead[len(chainLast)] = true // which attempt keeps the connection is not known here
+			chainLast = append(chainLast, len(sc.Ops))
 		} else {
 			chainOf[len(sc.Ops)] = len(chainLast)
 			chainLast = append(chainLast, len(sc.Ops))
 		}
 		autos = append(autos, len(sc.Ops))
 		sc.Ops = append(sc.Ops, op)
-		sc.Branches = append(sc.Branches, genBranch(r, hostile, used))
-		m := 0
-		if r.Chance(1, 10) {
-			m = 1 + r.Intn(2)
+		nreg := 1
+		if op.Db {
+			autos = append(autos, len(sc.Ops), len(sc.Ops)+1)
+			sc.Ops = append(sc.Ops, Op{K: "retry", G: op.G, Slow: op.Slow}, Op{K: "retry", G: op.G, Slow: op.Slow})
+			nreg = 3
 		}
-		sc.Refuse = append(sc.Refuse, m)
+		for j := 0; j < nreg; j++ {
+			sc.Branches = append(sc.Branches, genBranch(r, hostile, used))
+			m := 0
+			if r.Chance(1, 10) {
+				m = 1 + r.Intn(2)
+			}
+			sc.Refuse = append(sc.Refuse, m)
+		}
 		// phase two may arrive while later branches are still being created
 		if r.Chance(1, 4) {
 			t := autos[r.Intn(len(autos))]
@@ -155,7 +183,13 @@ func genScenario(r *hutil.Rng, stream string) Scenario {
 	}
 	seen := map[string]bool{}
 	for i := 0; i < nf; i++ {
-		f := Fault{Kind: kinds[r.Intn(len(kinds))], Nth: r.Intn(na)}
+		f := Fault{Kind: kinds[r.Intn(len(kinds))], Nth: r.Intn(na + 2)}
+		switch x := r.Intn(20); {
+		case x < 7:
+			f.Err = "badconn"
+		case x < 9:
+			f.Err = "ctx"
+		}
 		k := fmt.Sprintf("%s:%d", f.Kind, f.Nth)
 		if !seen[k] {
 			seen[k] = true
@@ -203,10 +237,10 @@ func enumReuse() []Scenario {
 		refuse int
 		slow   bool
 	}
-	firsts := []first{{f: []Fault{{"STMT", 0}}}, {f: []Fault{{"END", 0}}}, {f: []Fault{{"PREPARE", 0}}},
-		{f: []Fault{{"START", 0}}}, {refuse: 1}, {slow: true}, {f: []Fault{{"STMT", 0}, {"END", 0}}},
-		{f: []Fault{{"STMT", 0}, {"ROLLBACK", 0}}}}
-	seconds := [][]Fault{nil, {{"STMT", 1}}, {{"PREPARE", 0}}, {{"START", 1}}}
+	firsts := []first{{f: []Fault{{Kind: "STMT", Nth: 0}}}, {f: []Fault{{Kind: "END", Nth: 0}}}, {f: []Fault{{Kind: "PREPARE", Nth: 0}}},
+		{f: []Fault{{Kind: "START", Nth: 0}}}, {refuse: 1}, {slow: true}, {f: []Fault{{Kind: "STMT", Nth: 0}, {Kind: "END", Nth: 0}}},
+		{f: []Fault{{Kind: "STMT", Nth: 0}, {Kind: "ROLLBACK", Nth: 0}}}}
+	seconds := [][]Fault{nil, {{Kind: "STMT", Nth: 1}}, {{Kind: "PREPARE", Nth: 0}}, {{Kind: "START", Nth: 1}}}
 	for _, ver := range []string{"5.7.30", "8.0.30"} {
 		for _, a := range firsts {
 			for _, b := range seconds {
@@ -223,7 +257,7 @@ func enumReuse() []Scenario {
 		}
 		// three branches in a row on one connection, the last two failing
 		out = append(out, Scenario{Version: ver, Xids: x, Branches: []int64{71, 72, 73}, Refuse: []int{0, 0, 0}, Stream: "clean",
-			Faults: []Fault{{"PREPARE", 0}, {"STMT", 1}, {"STMT", 2}},
+			Faults: []Fault{{Kind: "PREPARE", Nth: 0}, {Kind: "STMT", Nth: 1}, {Kind: "STMT", Nth: 2}},
 			Ops: []Op{{K: "auto", G: 0}, {K: "auto", G: 1, Reuse: true, Target: 0}, {K: "auto", G: 0, Reuse: true, Target: 1},
 				{K: "p2", Target: 2, Commit: false}}})
 		// timeout alone, with both phase-two kinds
@@ -231,6 +265,48 @@ func enumReuse() []Scenario {
 			out = append(out, Scenario{Version: ver, Xids: x, Branches: []int64{81}, Refuse: []int{0}, Stream: "clean",
 				Ops: []Op{{K: "auto", G: 0, Slow: true}, {K: "p2", Target: 0, Commit: c}}})
 		}
+	}
+	return out
+}
+
+// the pool retires connections between phase one and phase two; every fault kind as
+// driver.ErrBadConn; statements through db.ExecContext with database/sql's retry: enumerated
+func enumPool() []Scenario {
+	var out []Scenario
+	x := []string{"10.0.0.7:8091:2612345678901234567", "10.0.0.9:8091:77"}
+	bs := []int64{2612345678901234568, 2612345678901234569, 2612345678901234570, 2612345678901234571}
+	mk := func(ver string, ops []Op, fs ...Fault) Scenario {
+		return Scenario{Version: ver, Xids: x, Branches: bs, Refuse: []int{0, 0, 0, 0}, Stream: "clean", Ops: ops, Faults: fs}
+	}
+	bad := func(k string, n int) Fault { return Fault{Kind: k, Nth: n, Err: "badconn"} }
+	for _, ver := range []string{"5.7.30", "8.0.30"} {
+		for _, c := range []bool{true, false} {
+			for _, st := range []bool{false, true} {
+				out = append(out, mk(ver, []Op{{K: "auto"}, {K: "retire", Target: 0}, {K: "p2", Target: 0, Commit: c, Stranger: st}}))
+			}
+		}
+		out = append(out, mk(ver, []Op{{K: "auto"}, {K: "retire", Target: 0}, {K: "auto", G: 1, Reuse: true, Target: 0}, {K: "p2", Target: 2, Commit: true}},
+			Fault{Kind: "STMT", Nth: 0}))
+		out = append(out, mk(ver, []Op{{K: "auto"}, {K: "retire", Target: 0}, {K: "p2", Target: 0, Commit: false}}, Fault{Kind: "START", Nth: 0}))
+		out = append(out, mk(ver, []Op{{K: "auto"}, {K: "retire", Target: 0}, {K: "p2", Target: 0, Commit: false}},
+			Fault{Kind: "STMT", Nth: 0}, Fault{Kind: "ROLLBACK", Nth: 0}))
+		// each command failing with driver.ErrBadConn on a pinned connection, then the next statement
+		for _, fs := range [][]Fault{{bad("START", 0)}, {bad("STMT", 0)}, {bad("END", 0)}, {bad("PREPARE", 0)},
+			{{Kind: "STMT", Nth: 0}, bad("ROLLBACK", 0)}, {bad("PREPARE", 0), bad("ROLLBACK", 0)}, {bad("STMT", 0), bad("END", 0)}} {
+			out = append(out, mk(ver, []Op{{K: "auto"}, {K: "auto", G: 1, Reuse: true, Target: 0}, {K: "p2", Target: 0, Commit: false},
+				{K: "p2", Target: 1, Commit: true}}, fs...))
+		}
+		out = append(out, mk(ver, []Op{{K: "local"}, {K: "auto", G: 1, Reuse: true, Target: 0}}, bad("STMT", 0)))
+		// through db.ExecContext
+		dbops := []Op{{K: "auto", Db: true}, {K: "retry"}, {K: "retry"}, {K: "p2", Target: 0, Commit: false},
+			{K: "p2", Target: 1, Commit: true}, {K: "p2", Target: 2, Commit: true}}
+		for _, fs := range [][]Fault{nil, {bad("STMT", 0)}, {bad("STMT", 0), bad("STMT", 1)}, {bad("STMT", 0), bad("STMT", 1), bad("STMT", 2)},
+			{bad("START", 0)}, {bad("END", 0)}, {bad("PREPARE", 0)}, {{Kind: "STMT", Nth: 0}}, {{Kind: "STMT", Nth: 0, Err: "ctx"}},
+			{bad("STMT", 0), {Kind: "PREPARE", Nth: 0}}, {bad("PREPARE", 0), bad("ROLLBACK", 0)}} {
+			out = append(out, mk(ver, dbops, fs...))
+		}
+		s := mk(ver, []Op{{K: "auto", Db: true, Slow: true}, {K: "retry", Slow: true}, {K: "retry", Slow: true}})
+		out = append(out, s)
 	}
 	return out
 }
@@ -341,6 +417,7 @@ func Run(args map[string]string) {
 		r := hutil.NewRng(seed)
 		scs = append(scs, enumScenarios()...)
 		scs = append(scs, enumReuse()...)
+		scs = append(scs, enumPool()...)
 		rc := r.Fork(1)
 		for i := 0; i < n; i++ {
 			scs = append(scs, genScenario(rc, "clean"))
